@@ -41,6 +41,8 @@ type allocOracle struct {
 	thorough bool
 	menus    string
 	outcomes map[string]bool
+	confirming bool
+	confirmed  map[string]bool
 }
 
 func (o *allocOracle) mkCase(s *ctlSys, hist []verifrt.Event) allocCase {
@@ -59,6 +61,9 @@ func (o *allocOracle) mkCase(s *ctlSys, hist []verifrt.Event) allocCase {
 			c.Readable = append(c.Readable, fmt.Sprintf("pools := layout %d %v", e.A, ps))
 		case "svc":
 			x := "deliver " + e.S
+			if len(e.C) > 0 {
+				x += fmt.Sprintf(" [map order choices %v]", e.C)
+			}
 			if e.B > 0 {
 				x += " [status write fails]"
 			}
@@ -97,6 +102,49 @@ func ipsOf(status string) []net.IP {
 }
 
 func (o *allocOracle) violate(s *ctlSys, hist []verifrt.Event, sig, detail string) {
+	usesOrder := false
+	for _, e := range hist {
+		if len(e.C) > 0 {
+			usesOrder = true
+		}
+	}
+	if usesOrder && !o.confirming {
+		// F1: a violation that needs a non-default map iteration order is believed only if the same history,
+		// run with the runtime's own iteration order, shows the same signature at least once.
+		key := sig + fmt.Sprint(hist)
+		if done, ok := o.confirmed[key]; ok {
+			if !done {
+				return
+			}
+		} else {
+			ok := false
+			for i := 0; i < 256 && !ok; i++ {
+				tmp := verifrt.NewResult(o.prop)
+				oo := &allocOracle{prop: o.prop, res: tmp, u: o.u, thorough: o.thorough, menus: o.menus, confirming: true}
+				verifrt.MapNative = true
+				b := &verifrt.BFS{New: func() verifrt.System { return newCtlSys(o.u) }, Before: oo.before, After: oo.after, Res: tmp}
+				plain := make([]verifrt.Event, len(hist))
+				for j, e := range hist {
+					e.C = nil
+					plain[j] = e
+				}
+				b.Replay(plain)
+				verifrt.MapNative = false
+				if tmp.SigCount[sig] > 0 {
+					ok = true
+				}
+			}
+			if o.confirmed == nil {
+				o.confirmed = map[string]bool{}
+			}
+			o.confirmed[key] = ok
+			if !ok {
+				o.res.Count("unconfirmed_order_candidates", 1)
+				return
+			}
+			o.res.Count("order_candidates_confirmed_on_native_order", 1)
+		}
+	}
 	o.res.Violate(sig, detail+"\n  history: "+strings.Join(o.mkCase(s, hist).Readable, " ; "), o.mkCase(s, hist))
 }
 
@@ -759,7 +807,7 @@ func runAlloc(t *testing.T, prop string) {
 		for _, u := range universes(c.Thorough) {
 			if u.Name == c.Universe {
 				o := &allocOracle{prop: prop, res: res, u: u, thorough: c.Thorough, menus: c.Menus}
-				b := &verifrt.BFS{New: func() verifrt.System { return newCtlSys(u) }, Before: o.before, After: o.after, Res: res}
+				b := &verifrt.BFS{New: func() verifrt.System { return newCtlSys(u) }, Before: o.before, After: o.after, Res: res, ChoiceKinds: []string{"maporder"}}
 				b.Replay(c.History)
 			}
 		}
@@ -787,6 +835,16 @@ func runAlloc(t *testing.T, prop string) {
 				roots = append(roots, append(append([]verifrt.Event{}, prefix...), e))
 			}
 		}
+		if len(u.Preload) > 0 {
+			// a preloaded universe starts as a restart: every first event (any delivery order, any fault) is a root
+			roots = nil
+			for _, e := range newCtlSys(u).Enabled() {
+				if e.Fault && prop != "C06" {
+					continue
+				}
+				roots = append(roots, []verifrt.Event{e})
+			}
+		}
 		o := &allocOracle{prop: prop, res: res, u: u, thorough: thorough, menus: menus}
 		var mine [][]verifrt.Event
 		for _, r := range roots {
@@ -798,15 +856,29 @@ func runAlloc(t *testing.T, prop string) {
 		if len(mine) == 0 {
 			continue
 		}
+		udepth := depth
+		if prop == "C06" && !thorough && (u.Name == "share" || u.Name == "policy" || u.Name == "dual") {
+			udepth = depth - 1 // the fault menu multiplies the graph: the hand-written restart-* universes carry the deep cases in the quick tier
+		}
+		if strings.HasPrefix(u.Name, "restart-") && prop == "C06" {
+			udepth = 1 // the store is pre-built: one more user event, every delivery order, two faults
+			if thorough {
+				udepth = 2
+			}
+		}
 		maxFault := 0
 		if prop == "C06" {
 			maxFault = 1
-			if thorough || u.Name == "reconf" {
+			if thorough || strings.HasPrefix(u.Name, "restart-") {
 				maxFault = 2
 			}
 		}
-		b := &verifrt.BFS{New: func() verifrt.System { return newCtlSys(u) }, Roots: mine, MaxUser: depth, MaxFault: maxFault, Horizon: 90,
+		b := &verifrt.BFS{New: func() verifrt.System { return newCtlSys(u) }, Roots: mine, MaxUser: udepth, MaxFault: maxFault, Horizon: 90,
 			Before: o.before, After: o.after, Res: res, Deadline: deadline}
+		if prop == "C02" && (u.Name == "policy" || u.Name == "dual") {
+			// the policy must hold whichever pool the maps yield first: one non-default iteration order per history
+			b.ChoiceKinds, b.MaxChoiceDev = []string{"maporder"}, 1
+		}
 		// the root's own first edge is checked by replaying it with the oracle
 		for _, r := range mine {
 			b.Replay(r)
@@ -817,7 +889,7 @@ func runAlloc(t *testing.T, prop string) {
 	res.Count("traces_validated_against_impl", res.Counters["transitions"])
 	res.Info["depth_user_events"] = depth
 	res.Info["menus"] = menus
-	res.Info["max_fault_events"] = "1 (2 in universe reconf and in the thorough tier)"
+	res.Info["max_fault_events"] = "1 (2 in the restart-* universes and in the thorough tier)"
 	res.Count("distinct_nontrivial", res.Counters["states"])
 }
 
